@@ -55,6 +55,31 @@ def driver_stderr_heads(ctx):
             pass
     return heads
 
+def replay_retry(ctx, binary, cases, **kw):
+    """ctx.replay, then one retry (fresh processes) of the cases that got no verdict because a driver process died or a case
+    hung. The real tsi1 code has rare races under background compaction (use-after-unmap SIGSEGV, delete vs. compaction
+    deadlock: reported as findings, not this property's subject); a case that fails to produce a verdict twice stays
+    inconclusive (exit 2). What happened is recorded in the evidence (driver_crashes)."""
+    n_infra = len(ctx.infra)
+    res, lines = ctx.replay(binary, cases, **kw)
+    lost = [i for i, r in enumerate(res) if not r.get('ok') and (r.get('kind') == 'hang' or
+            (r.get('kind') == 'infra' and 'no result' in (r.get('msg') or '')))]
+    heads = driver_stderr_heads(ctx)
+    if lost and len(lost) <= max(50, len(cases) // 5):
+        vlib.log(f'{len(lost)} cases without verdict (driver died / hung); retrying them once')
+        for h in heads[:3]:
+            vlib.log('driver stderr head: ' + h[:1500])
+        ctx.extra_cov['driver_crashes'] = {'cases_retried': len(lost), 'stderr_heads': [h[:600] for h in heads[:3]]}
+        del ctx.infra[n_infra:]
+        kw2 = dict(kw)
+        kw2['procs'] = min(kw.get('procs') or 4, max(1, len(lost)))
+        res2, _ = ctx.replay(binary, [cases[i] for i in lost], **kw2)
+        for j, i in enumerate(lost):
+            r = dict(res2[j])
+            r['id'] = i
+            res[i] = r
+    return res, lines
+
 def run(ctx):
     thorough = ctx.tier == 'thorough'
     txt = open(os.path.join(ctx.spec_dir, SPEC + '.tla')).read()
@@ -67,7 +92,7 @@ def run(ctx):
     base = dict(NS=ns, MaxOps=3 if not thorough else 4, Seed=ctx.seed, QPerStep=1, RecHist='FALSE')
     f_mc = pool.submit(ctx.tlc, SPEC, cfg(base, 'TypeOK ImplExact NoLeak'), timeout=1700, coverage=True, tag='mc', workers=min(6, ncpu), heap='4g')
     f_lead = pool.submit(ctx.tlc, SPEC, cfg(base, 'NoStaleNames'), timeout=900, tag='lead', workers=2, heap='2g', count=False)
-    nsim = 160 if not thorough else 900
+    nsim = 160 if not thorough else 600
     gen = dict(NS=ns, MaxOps=6 if not thorough else 7, Seed=ctx.seed, QPerStep=10 if not thorough else 12, RecHist='TRUE')
     f_gen = pool.submit(ctx.tlc, SPEC, cfg(gen, 'Emit', view=False), timeout=1700, tag='gen', workers=min(4, ncpu), heap='3g',
                         simulate={'num': nsim}, depth=gen['MaxOps'] + 2)
@@ -91,17 +116,13 @@ def run(ctx):
     cases = []
     for h in hs:
         for _ in range(1 if not thorough else 2):
-            cases.append({'tab': tab[:ns], 'steps': h, 'variant': rng.randrange(4), 'maxLog': rng.choice([0, 0, 1]),
+            cases.append({'tab': tab[:ns], 'steps': h, 'variant': rng.randrange(4), 'maxLog': rng.choice([0, 0, 1] if not thorough else [0, 0, 0, 0, 0, 1]),
                           'cacheSize': rng.choice([100, 0]), 'delApi': rng.choice(['predicate', 'influxql'])})
     ctx.exhaustive = False
     ctx.extra_cov['histories'] = len(hs)
     tolerate = ','.join(k['pattern'] for k in ctx.known if k.get('property') == ctx.id and not str(k.get('status', 'open')).startswith('fixed'))
-    res, lines = ctx.replay(binary, cases, timeout=1700, procs=min(16, ncpu), args={'tolerate': tolerate}, case_timeout='900s')
+    res, lines = replay_retry(ctx, binary, cases, timeout=1700, procs=min(16, ncpu), args={'tolerate': tolerate}, case_timeout='400s')
     ctx.absorb(res, lines)
-    for h in driver_stderr_heads(ctx)[:4]:
-        vlib.log('driver stderr head: ' + h)
-        if ctx.infra:
-            ctx.infra.append('driver stderr head: ' + h[:1400])
     ctx.extra_cov['queries_compared'] = sum(int(x.get('evals', 0) or 0) for x in res)
     ctx.rule = ('a case = one simulated TLC history of Write(shard, <=2 series)/Delete(measurement[, tag=value], time range over shard '
                 '1, 2 or both) on a two-shard store, each step followed by a seeded sample of queries (MeasurementNames/TagKeys/'
